@@ -171,6 +171,10 @@ class Merge(Expr):
             result = self.left.unique_partition_mapping_columns_from_shuffle.copy()
             result.update(self.right.unique_partition_mapping_columns_from_shuffle)
             return result
+        if self.is_broadcast_join:
+            # A broadcast join keeps the partitioning of the side that is not
+            # broadcast; its output is not hash-partitioned by the join keys.
+            return set()
 
         return {
             tuple(self.left_on) if isinstance(self.left_on, list) else self.left_on,
@@ -684,6 +688,8 @@ class HashJoinP2P(Merge, PartitionsFiltered):
 
 
 class BroadcastJoin(Merge, PartitionsFiltered):
+    is_broadcast_join = True
+
     _parameters = [
         "left",
         "right",
